@@ -139,6 +139,25 @@ def decode (maxLen : Nat) (v : Bytes) : Except HErr Bytes :=
       else if st.cur % 2 ^ st.cbits ≠ 2 ^ st.cbits - 1 then .error .invalid
       else .ok st.out.reverse
 
+/-! ### properties of the regenerated table -/
+
+/-- (code, length) of the 256 octets followed by EOS -/
+def codes : List (Nat × Nat) := (huffmanCodes.zip huffmanCodeLen) ++ [(eosCode, eosLen)]
+
+/-- code `a` is a prefix of code `b` -/
+def isPrefixCode (a b : Nat × Nat) : Bool := a.2 ≤ b.2 && b.1 >>> (b.2 - a.2) == a.1
+
+/-- no code is a prefix of the code of another symbol (EOS included) -/
+def prefixFree (l : List (Nat × Nat)) : Bool :=
+  l.zipIdx.all fun a => l.zipIdx.all fun b => a.2 == b.2 || !isPrefixCode a.1 b.1
+
+/-- 257 codes of 5..30 bits, each fitting its length -/
+def tableWf (l : List (Nat × Nat)) : Bool :=
+  l.length == 257 && l.all (fun c => 5 ≤ c.2 && c.2 ≤ 30 && c.1 < 2 ^ c.2)
+
+/-- Kraft equality: the code is complete (every infinite bit string starts with exactly one code) -/
+def kraftComplete (l : List (Nat × Nat)) : Bool := (l.map (fun c => 2 ^ (30 - c.2))).sum == 2 ^ 30
+
 /-! ### declarative decoder -/
 
 def bytesToBits (v : Bytes) : List Bool := v.flatMap (fun b => bitsOf b.toNat 8)
